@@ -92,13 +92,63 @@ class ExprMixin:
             return Unknown('recursive variable %s' % var.name)
         self._var_stack.add(key)
         try:
-            fr = self.new_frame(None, var.module, recv=ClassV(var.cls) if var.cls else None, defcls=var.cls)
-            fr.quiet = True
-            v = self.eval(var.node, fr)
+            v = self.module_constant_by_evaluation(var)
+            if v is None:
+                fr = self.new_frame(None, var.module, recv=ClassV(var.cls) if var.cls else None, defcls=var.cls)
+                fr.quiet = True
+                v = self.eval(var.node, fr)
         finally:
             self._var_stack.discard(key)
         self._var_memo[key] = v
         return v
+
+    def module_constant_by_evaluation(self, var):
+        """a module level constant bound to the result of a call of a module level function of the repository without
+        arguments that depend on anything but other constants (``_TABLE = _build_table()``): the function is evaluated from its
+        own statements (sa.miniexec - no input is involved, so this is constant folding) and the resulting numbers, strings,
+        tuples, lists and dictionaries become the constant's value.  None when the definition is not of that form or the
+        function leaves the evaluable subset"""
+        node = var.node
+        if var.cls is not None or not (isinstance(node, ast.Call) and isinstance(node.func, ast.Name)):
+            return None
+        callee = self.model.resolve_name(var.module, node.func.id)
+        if not (isinstance(callee, FuncInfo) and callee.cls is None and not callee.module.external):
+            return None
+        from .miniexec import Evaluator, Raised, Unsupported, class_call_hook
+
+        class _ModuleScope:
+            # the part of a ClassInfo the hook needs: helper functions and constants are looked up in the module
+            name, module, mro = '<module>', var.module, []
+
+            @staticmethod
+            def resolve(_name):
+                return None
+
+            @staticmethod
+            def resolve_var(_name):
+                return None
+        try:
+            hook = class_call_hook(_ModuleScope, None, self.model)
+            val = Evaluator({}, hook, None).ev(node)
+        except (Unsupported, Raised, Exception):      # pylint: disable=broad-except
+            return None
+
+        def conv(x, depth=0):
+            if depth > 6:
+                raise ValueError
+            if x is None or isinstance(x, (bool, int, str, bytes, float)):
+                return x
+            if isinstance(x, tuple):
+                return tuple(conv(i, depth + 1) for i in x)
+            if isinstance(x, list):
+                return ListV([conv(i, depth + 1) for i in x], True)
+            if isinstance(x, dict):
+                return DictV([(conv(k, depth + 1), conv(v, depth + 1)) for k, v in x.items()], True)
+            raise ValueError
+        try:
+            return conv(val)
+        except ValueError:
+            return None
 
     def lookup_name(self, name, fr):
         if name in fr.env:
